@@ -278,6 +278,11 @@ class Mir:
         parts = [p for p in s.split('::') if p]
         if not parts:
             return None
+        if '<impl ' in c and len(parts) >= 2:
+            # module::<impl Type>::method  (inherent impl named through a type alias): unique method of that module
+            cands = [x for (sb, meth), lst in self.defs.items() if meth == parts[-1] and sb is not None for x in lst if x[2] == parts[0]]
+            if len(cands) == 1:
+                return self.fns[cands[0][0]]
         if len(parts) >= 2:
             r = self.defs.get((parts[-2], parts[-1]))
             if r:
